@@ -72,7 +72,7 @@ CLAIMS = {
   "note": ENG_NOTE,
   "technique": ENG_TECH},
  "C11": {
-  "text": 'Theorems (Props/C11.v, 7, closed): the engine model carries the result map WITH its values (name -> value, nil for a bare return); for all 21 entry points and all configurations the map is never nil, its keys are exactly the executed rules that reported the returned-flag, without duplicates; with pairwise distinct rule names every key is bound to the value THAT rule returned and nothing else is in the map (C11_engine_result_values; the left-to-right half holds unconditionally), a bare return binds nil; the map does not depend on what an earlier call left (hand_no_stale). Rule-level half (flag only from a return whose expression evaluated and whose value could leave the rule) is part of the statement model (Lang/Sem.v exec_block) and of T4 (statements_protocol, return_protocol, rule_execute_recovers). Tie: T1 (IReset first in every skeleton; addResult is one locked store of exactly the executed rule\'s name and value) + ~600 calls over all entry points, all rule kinds (plain / value return / bare return / fail / fail-inside-return / stray break / stray continue / return of an unexported field), fresh and previously-used engines, warm histories; keys AND values compared inside Coq (Engine/Check.v entries_eqb). Through the pool: the 24 wrapper methods called in a row on (1,2) pools with an always-failing rule at the top / middle / bottom of the set (and one set without it): the map each hands back, with or without an error, must be the map Engine/Spec.v assigns to that entry point on the installed rules (Pool/Compose.v expected_result_k, compared inside Coq).',
+  "text": 'Theorems (Props/C11.v, 7, closed): the engine model carries the result map WITH its values (name -> value, nil for a bare return); for all 21 entry points and all configurations the map is never nil, its keys are exactly the executed rules that reported the returned-flag, without duplicates; with pairwise distinct rule names every key is bound to the value THAT rule returned and nothing else is in the map (C11_engine_result_values; the left-to-right half holds unconditionally), a bare return binds nil; the map does not depend on what an earlier call left (hand_no_stale). Rule-level half (flag only from a return whose expression evaluated and whose value could leave the rule) is part of the statement model (Lang/Sem.v exec_block) and of T4 (statements_protocol, return_protocol, rule_execute_recovers). Tie: T1 (IReset first in every skeleton; addResult is one locked store of exactly the executed rule\'s name and value) + ~600 calls over all entry points, all rule kinds (plain / value return / bare return / fail / fail-inside-return / stray break / stray continue / return of an unexported field), fresh and previously-used engines, warm histories; keys AND values compared inside Coq (Engine/Check.v entries_eqb). Through the pool (and the transparency of its wrappers): the 24 wrapper methods with both error-policy values, varied name lists, N-M splits and layerings, called in a row on (1,2) pools whose rule sets contain an always-failing rule and a stop-tag-setting rule at the top / middle / bottom: the map each hands back, with or without an error, and the error flag must be what Engine/Spec.v spec_outcome assigns to that entry point with those arguments on the installed rules (about 800 calls quick, compared inside Coq).',
   "note": ENG_NOTE,
   "technique": ENG_TECH},
  "C12": {
